@@ -55,6 +55,7 @@ WHAT = {
     "c12_vector_push": "vector_push == append one lane or nil",
     "c12_vector_elementwise": "vector_add/subtract/multiply (checked) and less_than/equal/greater_than masks",
     "c12_vector_reduce": "vector_sum / vector_dot exact",
+    "c12_vector_dot16": "vector_dot over two 8-byte lanes: exact where the sum fits 127 bits, and no machine-word overflow inside the body beyond that",
     "c12_vector_take": "vector_take == gather by mask",
     "c12_rope_slice": "real rope: slice of owned == flat (len, byte_at, to_vec, find_byte)",
     "c12_rope_slice_window": "real rope: a one-byte Slice window of a two-byte buffer: len, byte_at, find_byte confined to the window",
@@ -92,6 +93,8 @@ NOT_CLAIMED_WHY = {
     r"c12_binary_set__": "time-out / out of memory (> 20 GB, > 20 min): 9-10 byte read-modify-write body",
     r"c12_binary_(append|concat_length__(0_2|3_0|2_3))|c12_binary_shift__4|c12_vector_(push|elementwise|reduce)|c12_vector_take__[458]":
         "out of memory at 14 GB: bodies that build result Vecs from non-empty inputs",
+    r"c12_vector_dot16__":
+        "out of memory at 24 GB even with the second operand's lanes restricted to six boundary constants (added for the seeded change C12c; an i128 accumulator in vector_dot would fail Rust's overflow assertion here if CBMC could finish)",
     r"c12_rope_slice__4|c12_rope_slice__3_1_2|c12_rope_slice_small__|c12_rope_concat__|c12_rope_tiled_small__(1_3|2_2)":
         "BinaryData::len/byte_at/find_byte recurse through Rc children; CBMC cannot see a heap-resident variant and unwinds every arm at every level (covered instead by the loop-free window/pair harnesses)",
 }
